@@ -167,6 +167,7 @@ Definition hist_of_case (c : ccase) : option (option idf * option fmsg * list (s
       Some (i, vinit, cinit, map (fun p => mkH (fst (fst (fst p))) (snd (fst (fst p))) (snd (fst p)) (snd p)) hist, fv, fc)
   | CaseGen i cinit prog cands sched results reported created fc =>
       Some (i, None, cinit, hist_of 0 (subst_reported i 0 prog reported) results sched, None, fc)
+  | CaseCfg _ i vinit cinit prog sched results fv fc _ _ _ => Some (i, vinit, cinit, hist_of 0 prog results sched, fv, fc)
   | _ => None
   end.
 
@@ -180,4 +181,5 @@ Proof.
   - apply linearizable_b_sound. exact H.
   - apply andb_true_iff in H. destruct H as [H _]. apply andb_true_iff in H. destruct H as [H _].
     apply linearizable_b_sound. exact H.
+  - apply linearizable_b_sound. exact H.
 Qed.
